@@ -12,7 +12,7 @@ Inline content AST (JSON lists), a *content* is a list of items:
   ["U", url_text, content|None]                                                           [url text]
   ["B", content] / ["I", content]                                                         '''x''' / ''x''
   ["H", tag_as_written, [attr...], content|None, end_ws]   attr = [name, value, quote, eq]
-        content None = void element written without end tag (<br>)
+        content None = void element written without end tag (<br>, <br/>, <br />; end_ws holds the slash)
 Attribute map written: name eq quote value quote, blank separated.
 
 Observed / expected structure (JSON-able):
@@ -62,10 +62,10 @@ def r_item(it):
     if k == "H":
         tag, attrs, content = it[1], it[2], it[3]
         endws = it[4] if len(it) > 4 else ""
-        s = "<" + tag + (" " + r_attrs(attrs) if attrs else "") + ">"
+        s = "<" + tag + (" " + r_attrs(attrs) if attrs else "")
         if content is None:
-            return s
-        return s + r_content(content) + "</" + tag + endws + ">"
+            return s + endws + ">"        # void element: endws is "", "/" or " /"
+        return s + ">" + r_content(content) + "</" + tag + endws + ">"
     raise ValueError(k)
 
 
